@@ -51,8 +51,12 @@ structure Env where
   changeReq : Bool                     -- `registry._changing.requires_finalizer(cause)`: a mandatory deletion handler prematches
   foreignFins : Bool                   -- somebody else's finalizer is on the object (it survives our release)
   constPatch : Bool                    -- every cycle's patch carries content that changes nothing on the server
-                                       -- (e.g. the constant result of an `on.event` handler, stored again each time)
+                                       -- (e.g. the constant result of an `on.event` handler, stored again each time).
+                                       -- NOT modelled: after a keepalive touch that wakes nobody, that patch goes out
+                                       -- together with the touch-dummy cleanup, which does change the object (one more
+                                       -- PATCH + echo per keepalive round)
   lat : Tick                           -- PATCH round trip + delivery delay of its echo
+  rtt : Tick                           -- PATCH round trip alone (what a patch without an echo costs)
   cap : Tick                           -- `application.WAITING_KEEPALIVE_INTERVAL`
 
 /-- One object + the operator's memory of it + the one possibly pending watch event. -/
@@ -111,6 +115,9 @@ def decisionOf (env : Env) (s : State E) : C06.Decision :=
 /-- requests that change nothing: the constant part of the patch, sent when nothing else goes with it -/
 def cp (env : Env) : Nat := if env.constPatch then 1 else 0
 
+/-- from the end of the sleep to the next event: (the no-op patch was sent before the sleep, if any) + touch + echo -/
+def latS (env : Env) : Tick := (if env.constPatch then env.rtt else 0) + env.lat
+
 /-- did the handling pass put anything into the patch that CHANGES the object (records or last-handled)? -/
 def changedOf (env : Env) (s : State E) : Bool :=
   (ids env).any (fun i => (pass env s).P' i != s.P i) ||
@@ -131,7 +138,7 @@ def handleTurn (env : Env) (s : State E) : State E :=
   else
     match minDelay (pass env s).delays with
     | some d =>
-        nextState env s (s.now + (if d > env.cap then env.cap else d) + env.lat) true (s.writes + cp env + 1)
+        nextState env s (s.now + (if d > env.cap then env.cap else d) + latS env) true (s.writes + cp env + 1)
     | none => nextState env s s.now false (s.writes + cp env)
 
 /-- The closing pass of a deletion: the patch (records purged, last-handled) is merge-patched if it has
@@ -148,11 +155,11 @@ def loopStep (env : Env) (s : State E) : State E :=
     let d := decisionOf env s
     if d.add then
       -- "Adding the finalizer, thus preventing the actual deletion": no handlers this turn
-      { s with blocked := true, now := s.now + env.lat, pending := true, writes := s.writes + cp env + 1 }
+      { s with blocked := true, now := s.now + latS env, pending := true, writes := s.writes + cp env + 1 }
     else if d.removeUnneeded then
       -- "Removing the finalizer, as there are no handlers requiring it": no handlers this turn
       let g := s.marked && !env.foreignFins
-      { s with blocked := false, gone := g, now := s.now + env.lat, pending := !g, writes := s.writes + cp env + 1 }
+      { s with blocked := false, gone := g, now := s.now + latS env, pending := !g, writes := s.writes + cp env + 1 }
     else if !d.handlersRun then { s with pending := false, writes := s.writes + cp env }   -- "be blind to it, store no state"
     else if d.release then releaseTurn env s
     else handleTurn env s
@@ -223,6 +230,7 @@ def FiltersStable (envOf : State E → Env) (s : State E) : Prop :=
 structure WF (env : Env) : Prop where
   sub : ∀ c, ∀ i ∈ env.sel c, i ∈ env.owned
   lat : 0 ≤ env.lat
+  rtt : 0 ≤ env.rtt
   cap : 0 < env.cap
 
 /-- "handlers stop failing": from now on every invocation yields a final outcome (success, permanent
